@@ -1007,8 +1007,11 @@ def run_py(ctx, drv):
                                                 "requests": len(lines), "numpy": impl.np.__version__}
     model = drv.ask([py_model_line(l) for l in lines], timeout=1500) if drv else [None] * len(lines)
     ncontract = nfail = 0
+    history = []        # the float-wrapper requests run so far in this interpreter (their outcome may depend on the order)
     for line, st, m in zip(lines, streams, model):
         a = impl.answer(line)
+        if st == "float-seq":
+            history.append(line)
         o = orc.answer(line)
         ctx.case(line, o is not None and nontrivial(line))
         ctx.count("py:" + op_of(line))
@@ -1024,7 +1027,8 @@ def run_py(ctx, drv):
                 nfail += 1
                 ctx.fail({"kind": "contract", "target": "py", "op": op_of(line)},
                          "a Serializer/Deserializer primitive does not meet its contract (reference: big-integer bit arithmetic)",
-                         {"target": "py", "request": line, "observed": a, "expected": o, "model": m})
+                         dict({"target": "py", "request": line, "observed": a, "expected": o, "model": m},
+                              **({"history": history[-41:-1], "note": "run `history` first, in the same interpreter"} if st == "float-seq" else {})))
     ctx.extra.setdefault("targets", {})["py-numpy"] = {"requests": len(lines), "within_contract": ncontract, "contract_failures": nfail}
     ctx.sample({"request": lines[len(lines) // 2], "answer": impl.answer(lines[len(lines) // 2])})
 
@@ -1090,7 +1094,10 @@ def replay(ctx, path):
     line, target = rp["request"], rp.get("target", "c-any-gcc")
     exp = Oracle().answer(line)
     if target.startswith("py"):
-        got = PyImpl(ctx).answer(line)
+        impl = PyImpl(ctx)
+        for h in rp.get("history", []):      # state carried between calls in one interpreter
+            impl.answer(h)
+        got = impl.answer(line)
     else:
         jobs = [j for j in (build_cpp(ctx) if target.startswith("cpp") else build_c(ctx)) if j[0] == target]
         if not jobs:       # a thorough-only build: build it the thorough way
